@@ -492,9 +492,11 @@ def extrema(curext, mm, maxcase, mincase=None, casenum=None):
                 curext.mn_x[:, casenum] = np.nan
 
         if curext.ext is None:
-            curext.ext = mm.ext @ [[1, 1]]
+            # (stored as float: values of later cases would be
+            # truncated if the first case happens to be integer typed)
+            curext.ext = mm.ext @ [[1.0, 1.0]]
             if mm.ext_x is not None:
-                curext.ext_x = mm.ext_x @ [[1, 1]]
+                curext.ext_x = mm.ext_x @ [[1.0, 1.0]]
             else:
                 curext.ext_x = None
             curext.maxcase = maxcase
@@ -537,6 +539,12 @@ def extrema(curext, mm, maxcase, mincase=None, casenum=None):
     if curext.ext is None:
         curext.ext = mm.ext.copy()
         curext.ext_x = copy.copy(mm.ext_x)
+        # store as float: values of later cases would be truncated if
+        # the first case happens to be integer typed
+        if curext.ext.dtype.kind in "iub":
+            curext.ext = curext.ext.astype(float)
+        if curext.ext_x is not None and curext.ext_x.dtype.kind in "iub":
+            curext.ext_x = curext.ext_x.astype(float)
         curext.maxcase = maxcase
         curext.mincase = mincase
         return
